@@ -179,4 +179,7 @@ Proof.
   assert (Hb : forall s : bytes, beqb s s = true) by (induction s as [|a s IHs]; cbn; auto; now rewrite Nat.eqb_refl).
   now rewrite Hb.
 Qed.
+Theorem every_template parts p0 : plain p0 -> (forall ep, In ep parts -> simple (fst ep) /\ plain (snd ep)) ->
+  get_exprs (assemble p0 parts) = map (fun ep => tmpl (fst ep)) parts.
+Proof. intros H0 Hp. unfold get_exprs. apply scan_assemble; auto. Qed.
 End Proofs.
